@@ -350,13 +350,14 @@ func ruleP1(c *Ctx, pkgs map[string]bool, floor int) {
 	R := c.R
 	p := c.P
 	R.Rule("P1", "an operation installed with PreHook that starts background work (Go/Background/Launch/Add/StartGroup/go) is wrapped in Once(): however many times (and from however many split outputs) the iterator is advanced, the reader/worker set is started exactly once", floor)
+	R.Rule("P1c", "a PreHook operation that fills the pipe its own Producer reads does so in background work: run inline it would block the only consumer on a full (or unbuffered) pipe", 0)
 	R.Rule("P1b", "the background work started by such a hook runs under the context handed to the hook (the iterator's cancellable context), never context.Background()/TODO()", floor)
 	for _, f := range p.Funcs {
 		if !pkgs[shortPkg(f.Pkg.PkgPath)] {
 			continue
 		}
 		info := f.Info()
-		n := 0
+		n, nc := 0, 0
 		walkNoLit(f.Body, func(x ast.Node) bool {
 			call, ok := x.(*ast.CallExpr)
 			if !ok || selName(call) != "PreHook" || len(call.Args) != 1 {
@@ -375,6 +376,23 @@ func ruleP1(c *Ctx, pkgs map[string]bool, floor int) {
 				}
 			}
 			launches, what := containsLauncher(f, hook)
+			// P1c: a hook that feeds the very pipe whose Producer it is hooked to must do so from another goroutine
+			if rv := chainRootVar(info, call.Fun); rv != nil {
+				feeds := false
+				ast.Inspect(hook, func(y ast.Node) bool {
+					if id, ok := y.(*ast.Ident); ok && info.Uses[id] == types.Object(rv) {
+						if sel, ok := p.Parent(id).(*ast.SelectorExpr); !ok || sel.Sel.Name != "Close" {
+							feeds = true
+						}
+					}
+					return true
+				})
+				if feeds {
+					nc++
+					R.Check(launches, "P1c", fmt.Sprintf("%s/prehook-feeds-%s#%d", f.Name, rv.Name(), nc), p.Position(call.Pos()), "the hook that fills "+rv.Name()+" does so in background work ("+what+")",
+						"the PreHook operation fills "+rv.Name()+", the pipe this Producer reads, in the consumer's own goroutine (no Go/Background/Launch/go): once the pipe's buffer is full, or for an unbuffered pipe at the first item, the send blocks with nobody left to receive")
+				}
+			}
 			if !launches {
 				return true
 			}
@@ -814,4 +832,25 @@ done:
 		return exprStr(outer.Args[0]), true
 	}
 	return "", false
+}
+
+// chainRootVar returns the local variable at the root of a method chain
+// `v.A().B().C` (nil when the root is not a plain local).
+func chainRootVar(info *types.Info, e ast.Expr) *types.Var {
+	for {
+		switch x := ast.Unparen(e).(type) {
+		case *ast.SelectorExpr:
+			e = x.X
+		case *ast.CallExpr:
+			e = x.Fun
+		case *ast.Ident:
+			v, _ := info.Uses[x].(*types.Var)
+			if v == nil || v.IsField() {
+				return nil
+			}
+			return v
+		default:
+			return nil
+		}
+	}
 }
